@@ -56,6 +56,8 @@ def _grid(shape, rng, cap, horizon, opts):
     names.append(("ucancel", 0))
     axes.append(opts.get("preshut", [False]))
     names.append(("preshut", 0))
+    axes.append(opts.get("xshut", [False]))
+    names.append(("xshut", 0))
     # clean-ups that wait for a sibling's cancellation: between the first two entry jobs of
     # every scheduler that has two ("pair": one way, "mutual": both ways)
     axes.append(opts.get("cwait", [None]))
@@ -70,6 +72,7 @@ def _grid(shape, rng, cap, horizon, opts):
         pure = False
         ucancel = -1
         preshut = False
+        xshut = False
         cwait = [0] * n
         for (name, i), val in zip(names, choice):
             if name == "jf":
@@ -80,6 +83,8 @@ def _grid(shape, rng, cap, horizon, opts):
                 ucancel = val
             elif name == "preshut":
                 preshut = val
+            elif name == "xshut":
+                xshut = val
             elif name == "cwait":
                 if val:
                     for s in scheds:
@@ -98,7 +103,7 @@ def _grid(shape, rng, cap, horizon, opts):
                     kw[key][i] = dflt
         out = ["any" if kind[i] == "job" else "ok" for i in range(n)]
         return mkcfg(kind, parent, req, out=out, pure=pure, horizon=horizon, ucancel=ucancel,
-                     preshut=preshut, cwait=cwait, **kw)
+                     preshut=preshut, xshut=xshut, cwait=cwait, **kw)
 
     if total <= cap:
         for choice in itertools.product(*axes):
@@ -158,6 +163,7 @@ def family(name, tier, seed):
                  jobflags=[(False, False), (True, False), (False, True)],
                  schedflags=[(False, False), (True, False), (False, True), (True, True)],
                  pure=[False, True], ucancel=[-1, -1, 1, 2], preshut=[False, False, False, True],
+                 xshut=[False, True],
                  cwait=[None, None, "pair"]))
         desc = "6 nested shapes (depth <= 3) x flags x windows x timeouts x handler/clean-up durations"
     elif name == "shutdown":
@@ -170,8 +176,8 @@ def family(name, tier, seed):
             dict(win=[0], tmo=[-1, 1], cdur=[0, 1], sdur=[0, 1, 2, -1], scdur=[0, 1],
                  stmo=[0, 1, 2, -1],
                  jobflags=[(False, False), (True, False)],
-                 schedflags=[(False, False), (True, False), (False, True)], ucancel=[-1, -1, -1, 1],
-                 preshut=[False, False, False, True]))
+                 schedflags=[(False, False), (True, False), (False, True)], ucancel=[-1, -1, -1, 1, 2],
+                 preshut=[False, False, False, True], xshut=[False, True]))
         desc = "3 nested shapes x every handler duration against every shutdown_timeout in the tree"
     elif name == "never":
         # never-ending jobs (dur = -1) under timeouts / as forever jobs
